@@ -534,8 +534,11 @@ fn t2_hb_single_buf() {
     run2([B_SINGLE, B_BUF], [1, 1], 2, 2, true);
 }
 
-// @verif family=TBMC hook=1 ignorefn=TProbeA thorough=C07 timeout=7200 mem=48 optcov=both weight=6
-// @bounds kind=ConIterOfIter<usize,TProbe*> len<=2; FOUR threads: next_id_and_value() | skip_to_end() | next_id_and_value() | next_id_and_value(); <=6 guessed events per thread + solo continuation of the last; happens-before, exclusivity, exactly-once, index fidelity (the window between the two stores of skip_to_end)
+// NOT REGISTERED (no `@verif` line): with the wrapped `next` modelled as one atomic event this four-thread harness
+// found the window between the two stores of `skip_to_end` on the unrepaired tree in 47 min (fix 925e7a7); with the
+// two-event model of `next` CBMC exceeds 42 GB on it. Kept for reference; run by hand with a larger machine.
+// bounds: len<=2; FOUR threads: next_id_and_value() | skip_to_end() | next_id_and_value() | next_id_and_value();
+// <=6 guessed events per thread + solo continuation of the last; happens-before, exclusivity, exactly-once, index fidelity
 #[kani::proof]
 #[kani::unwind(12)]
 fn t4_single_skip_single_single() {
